@@ -437,7 +437,8 @@ fn gen_ce(args: &[String]) {
                 *rng.pick(&ways)
             };
             let amp = if rng.chance(92) { needed } else { rng.below(3) };
-            prog.push(json!({"kd": kd, "way": way, "amp": amp}));
+            let sc = *rng.pick(&ty::STMT_CONTEXTS);
+            prog.push(json!({"kd": kd, "way": way, "amp": amp, "sc": sc}));
         }
         lines.push(json!({"prog": prog}).to_string());
     }
